@@ -105,16 +105,37 @@ def outParF (sep : Option Bytes) (items : List (Bytes × Bool)) : Bytes :=
 /-! ### the "binary file matches" message (`standard.rs::StandardSink::finish` → `write_binary_message`)
 
 When a file is recognised as binary after a match (an explicitly named file: binary detection `convert`), the
-matching lines are withheld and `finish` writes the single line `path: binary file matches (…)` with
-`self.write(..)` directly — **without** `write_search_prelude`, so in the single-threaded run no file
-separator precedes that block.  (`flag = true`: the block is such a bare message.)  Multi-threaded, the
-message is in the worker's buffer like anything else and `BufferWriter::print` separates it. -/
+matching lines are withheld and `finish` writes the single line `path: binary file matches (…)`.  The message
+does not go through `write_search_prelude`; since 302ce55 `write_binary_message` itself writes the separator
+half of the prelude (`separator_search ++ line terminator` if anything was ever written) when the message is
+the only output of its search (`flag = true`: the block is such a bare message).  Before, nothing separated
+it in the single-threaded run. -/
 
 def seqPrintB (sep : Option Bytes) (term : Bytes) (st : Seq) (it : Bytes × Bool) : Seq :=
-  if it.2 then { out := st.out ++ it.1 } else seqPrint sep term st it.1
+  if it.2 then
+    -- `write_binary_message`: `!this_search_written` ⇒ separator if `ever_written`, then the message
+    if it.1.isEmpty then st else
+    let out := match sep with
+      | some s => if st.out.length > 0 then st.out ++ s ++ term else st.out
+      | none => st.out
+    { out := out ++ it.1 }
+  else seqPrint sep term st it.1
 
 def outSeqB (sep : Option Bytes) (term : Bytes) (items : List (Bytes × Bool)) : Bytes :=
   (items.foldl (seqPrintB sep term) {}).out
+
+/-! ### the `--stats` trailer
+
+`search`: `print_stats(mode, stats, started_at, searcher.printer().get_mut())` writes the trailer straight to
+stdout after the last file.  `search_parallel`: the trailer is written into the main searcher's (empty) buffer
+and handed to `bufwtr.print` — which treats it like any other buffer, so with a file separator configured
+(`--heading`, context) the separator line is written between the last file's block and the trailer. -/
+
+def outSeqStats (sep : Option Bytes) (term : Bytes) (blks : List Bytes) (trailer : Bytes) : Bytes :=
+  outSeq sep term blks ++ trailer
+
+def outParStats (sep : Option Bytes) (bufs : List Bytes) (trailer : Bytes) : Bytes :=
+  outPar sep (bufs ++ [trailer])
 
 /-! ### `--files` with several threads: channel + one printing thread -/
 
